@@ -6,7 +6,7 @@ From Coq Require Import List NArith ZArith Bool.
 From Coq Require Extraction.
 From Coq Require Import ExtrOcamlBasic.
 From Stevia Require Import Base.Res Base.Bytes Base.Utf8 Base.Sip.
-From Stevia Require Import Avl.Impl Avl.Format Avl.Spec.
+From Stevia Require Import Avl.Impl Avl.Format Avl.Spec Avl.Session.
 From Stevia Require Import Hash.Impl Hash.Format Hash.Spec.
 From Stevia Require Import Arr.Impl Arr.Format Arr.Spec.
 From Stevia Require Import Str.Prefix Pod.PodStr Pod.Pod.
@@ -19,6 +19,7 @@ Extraction "model.ml"
   (* trees *)
   Avl.Impl.insert Avl.Impl.remove Avl.Impl.get Avl.Impl.is_full Avl.Impl.open_mut
   Avl.Spec.step_c Avl.Spec.init_c Avl.Spec.spec_step Avl.Spec.spec_init Avl.Spec.s_claim
+  Avl.Session.step_sess Avl.Session.spec_step_sess Avl.Session.init_sess Avl.Session.spec_init_sess
   Avl.Format.encode Avl.Format.decode Avl.Format.decode_doc Avl.Format.data_len
   Avl.Format.d_inorder Avl.Format.d_levels
   (* hash set *)
